@@ -1,6 +1,7 @@
 package props
 
 import (
+	"voicheck/edt"
 	"voicheck/elen"
 )
 
@@ -57,11 +58,20 @@ func init() {
 		rlen := run.Rule("LEN-const", "constant-bound accesses on parameter-derived slices are guarded by a length fact along every call chain from an exported entry", 60).RequireControl(1)
 		rpanic := run.Rule("PANIC-class", "every explicit panic is provably impossible, a guarded vector stub, init-time, or documented", 40).RequireControl(1)
 		rneu := run.Rule("ERR-iii", "every UnmarshalBinary leaves its receiver neutral on failure: no input-derived data, and either reset to one constant state on all failing paths or untouched, per the frozen mode table", 25)
+		rnil := run.Rule("DT-cache-delegation", "the caching verifier fails without verifying when the key cannot be obtained and otherwise delegates with the (non-nil) expanded key it obtained", 6)
 		for _, id := range c.Configs() {
 			p := c.Prog(id)
 			run.SetConfig(id)
 			if id == c.Configs()[0] {
 				run.Sample(map[string]any{"config": id, "decoders": checkDecoderNeutrality(p, rneu)})
+				// the caching verifier hands a key to verification exactly when it has one (a nil key would be
+				// dereferenced: an implicit panic on attacker-chosen bytes) — the delegation tables of C09
+				ecfg := &edt.Config{P: p, Mod: modFor(p)}
+				for _, s := range c09MoreSpecs() {
+					if s.Pkg == "primitives/ed25519/extra/cache" {
+						edt.Check(rnil, ecfg, s)
+					}
+				}
 			}
 			st := elen.CheckErr(run, p, ri, rii, nil)
 			run.Sample(map[string]any{"config": id, "error-returning functions": st.Functions, "failure tests": st.Tests, "returns": st.Returns})
